@@ -395,9 +395,10 @@ def oracle_match(uri, regs, native):
                 continue
         if qd != (r["qd"] or {}):
             # a difference that consists only of blank-valued parameters gets its own reason
-            if {k: [v for v in vs if v != ""] for k, vs in qd.items() if any(v != "" for v in vs)} == (r["qd"] or {}):
+            nonblank = {k: [v for v in vs if v != ""] for k, vs in qd.items() if any(v != "" for v in vs)}
+            if nonblank == (r["qd"] or {}):
                 near.append("blank-query")
-            elif r["form"] == "str" and r["rawq"] and qd == {}:
+            elif r["form"] == "str" and r["rawq"] and nonblank == {}:
                 near.append("str-query-dropped")
             continue
         matched = True
@@ -845,6 +846,8 @@ class Run:
         ctx.count("endpoint:" + str(obs["stage"]))
         ctx.count("mode:%s" % mode)
         native = app == "native"
+        if uri == "":
+            uri = None              # Message drops empty values: the request carries no redirect_uri
         if uri is not None:
             allowed, reasons = oracle_match(uri, regs, native)
             target = uri
@@ -872,9 +875,7 @@ class Run:
                 code, u = 1, ""
             else:
                 code, u = 0, obs["parsed_redirect_uri"]
-            skip = (not uri and etype == "oidc")      # the OIDC request class itself requires redirect_uri
-            if uri == "":
-                skip = True                             # Message drops empty values: same as absent
+            skip = (uri is None and etype == "oidc")      # the OIDC request class itself requires redirect_uri
             if not skip:
                 self.dcases.append(("(%s, %s, %s, %s, (%s, %s))" % (coq_regs(regs), coq_bool(native), coq_bool(etype == "oidc"),
                                                                   coq_opt(uri, coq_str, "pystr"), coq_n(code), coq_str(u)), rec))
